@@ -445,6 +445,49 @@ pub fn enumerate(maxb: u128, part: usize, parts: usize, sink: &mut EnumSink) {
             return;
         }
     }
+    // critical-gap family: r = [a, a+q], s = [c, c+w] with a = c*q + 1 + delta for delta in -2..=2 — the
+    // multiples c*r and (c+1)*r touch, overlap by one or leave a gap of one or two integers — at every
+    // magnitude a ~ 2^4 .. 2^31 (an inequality evaluated in floating point, or in a narrower integer type,
+    // is only wrong near equality and only beyond its mantissa / width)
+    {
+        let mut idx = 0usize;
+        let mut count = 0usize;
+        for &c in &[1u128, 2, 3, 7, 100, 128, 255, 1000, 4097, 65535] {
+            for k in 4..=31u32 {
+                let q0 = (1u128 << k) / c;
+                for q in [q0.saturating_sub(1), q0, q0 + 1] {
+                    if q == 0 {
+                        continue;
+                    }
+                    for delta in -2i128..=2 {
+                        let a = (c * q) as i128 + 1 + delta;
+                        if a < 1 || a as u128 + q > U32MAX {
+                            continue;
+                        }
+                        idx += 1;
+                        if idx % parts != part {
+                            continue;
+                        }
+                        let r = R { lo: a as u128, hi: Some(a as u128 + q) };
+                        for w in [1u128, 2] {
+                            let s2 = R { lo: c, hi: Some(c + w) };
+                            let mut o = Outcome::default();
+                            check_pair(&r, &s2, false, &mut o);
+                            count += 1;
+                            sink.case(&o, true, || format!("critical gap: r = {}, s = {}", r.show(), s2.show()));
+                        }
+                        if sink.failed() {
+                            return;
+                        }
+                    }
+                }
+            }
+        }
+        let _ = count;
+        if part == 0 {
+            sink.stats.exhaustive_spaces.push("critical-gap family: r = [a, a+q], s = [c, c+1] and [c, c+2] with a = c*q + 1 + delta, delta in -2..=2, c in {1,2,3,7,100,128,255,1000,4097,65535}, q within 1 of 2^k/c for k = 4..31 (the gap inequality of right_mul_is_exact at, just above and just below equality, at every magnitude)".to_string());
+        }
+    }
     if part == 0 {
         sink.stats.exhaustive_spaces.push(format!("all {} ranges with bounds in 0..={} (finite and infinite), all ordered pairs, scale factors 0..=8", ranges.len(), maxb));
         sink.stats.samples.push(format!("[enum] r = {}, s = {}", ranges[ranges.len() / 3].show(), ranges[ranges.len() / 2].show()));
